@@ -254,7 +254,9 @@ class Library:
         return h[0](fr, name, args, arg_ops)
 
     def _lookup(self, name):
-        n = re.sub(r"'_\s*,?\s*", '', name).replace("<>", '')
+        n = name.replace("::<'_>", '')
+        n = re.sub(r"'_,\s*", '', n)
+        n = n.replace("<'_>", '')
         for rx, fn, label in self.table:
             if rx.search(n):
                 return fn, label
